@@ -158,6 +158,19 @@ theorem skipInv_step {cfg : Cfg} {s s' : State} {op : Op} (h : SkipInv s) (hs : 
     · split at hs <;> cases hs; exact h
     · cases hs
   | restart => simp only [stepS?, step?] at hs; split at hs <;> cases hs; exact h
+  | forget i =>
+    simp only [stepS?, step?] at hs
+    split at hs
+    · split at hs
+      · split at hs
+        · cases hs
+          intro k jk hk
+          by_cases hki : k = i
+          · subst hki; simp at hk
+          · simp only [upd_other _ _ hki] at hk; exact h k jk hk
+        · cases hs
+      · cases hs
+    · cases hs
 
 /-- the two step functions agree along every history that starts without a skipping job -/
 theorem run_eq_S {cfg : Cfg} (ops : List Op) {s : State} (h : SkipInv s) :
